@@ -207,6 +207,33 @@ func safeCheck[C any](check func(C, *Obs) error, c C, o *Obs) (err error) {
 	return check(c, o)
 }
 
+// stallThreshold: the library's default handlers arm a hard-coded one-second
+// wall-clock deadline (writeWait) for every automatic reply, so a process
+// that is descheduled for that long in the middle of a case (loaded machine,
+// paused VM) legitimately loses a reply.  An evaluation that failed AND took
+// this long is therefore inconclusive and is evaluated again; the verdict of
+// the first evaluation that is not stalled (or of the third re-evaluation)
+// counts.  Failures of evaluations that were not stalled are never retried.
+const stallThreshold = 400 * time.Millisecond
+
+// evalCase runs check on c, re-evaluating stalled failures.
+func evalCase[C any](check func(C, *Obs) error, c C, fp uint64) (*Obs, error, int) {
+	o := &Obs{fp: fp}
+	start := time.Now()
+	err := safeCheck(check, c, o)
+	discarded := 0
+	for try := 0; err != nil && time.Since(start) >= stallThreshold && try < 3; try++ {
+		o2 := &Obs{fp: fp}
+		start = time.Now()
+		err2 := safeCheck(check, c, o2)
+		if err2 == nil {
+			discarded++
+		}
+		o, err = o2, err2
+	}
+	return o, err, discarded
+}
+
 // RunProp is the common driver of a property part: regression cases first,
 // then replay mode or a rapid search.  Every failing case is written out as
 // JSON each time it fails; rapid re-executes the shrunk case last, so the file
@@ -221,10 +248,12 @@ func RunProp[C any](t *testing.T, id, part string, gen func(*rapid.T) C, check f
 		if jerr != nil {
 			t.Fatalf("harness: case not serialisable: %v", jerr)
 		}
-		o := &Obs{fp: fingerprint(js)}
 		watchdogCtx.caseJSON = js
-		err := safeCheck(check, c, o)
+		o, err, discarded := evalCase(check, c, fingerprint(js))
 		st.commit(o, js)
+		if discarded > 0 {
+			st.Classes["stalled_failing_evaluation_not_reproduced"] += int64(discarded)
+		}
 		if err != nil {
 			writeFail(id, part, t.Name(), js, err)
 		}
@@ -281,9 +310,11 @@ func RunEnum[C any](t *testing.T, id, part string, enum func(yield func(C) bool)
 		if jerr != nil {
 			t.Fatalf("harness: case not serialisable: %v", jerr)
 		}
-		o := &Obs{fp: fingerprint(js)}
-		err := safeCheck(check, c, o)
+		o, err, discarded := evalCase(check, c, fingerprint(js))
 		st.commit(o, js)
+		if discarded > 0 {
+			st.Classes["stalled_failing_evaluation_not_reproduced"] += int64(discarded)
+		}
 		if err != nil {
 			writeFail(id, part, t.Name(), js, err)
 		}
